@@ -19,6 +19,22 @@ def P(prop, **kw):
     META[prop] = kw
 
 
+def uws(cap, strl=8, nvars=2, groups=2, m=3, extra=None):
+    """per-loop unwinding bounds for cat.c loops whose exit condition is symbolic; a bound that is too small fails an
+    unwinding assertion (job inconclusive), it never truncates silently"""
+    u = {"strncpy.0": cap + 1, "strlen.0": strl + 2, "strcpy.0": 10,
+         "parse_int_decimal.0": cap + 1, "parse_uint_decimal.0": cap + 1, "parse_num_hexadecimal.0": cap + 1,
+         "parse_buffer_hexadecimal.0": cap + 1, "parse_buffer_string.0": cap + 1,
+         "format_buffer_hexadecimal.0": 10, "format_buffer_string.0": 10,
+         "verif_emit.0": 16, "verif_fmt_dec.0": 12, "verif_fmt_dec.1": 12, "verif_fmt_hex.0": 10, "verif_fmt_hex.1": 12,
+         "is_variables_access_possible.0": nvars + 1, "get_command_by_index.0": groups + 1, "is_command_disable.0": groups + 1,
+         "cat_init.0": m + 1, "cat_init.1": groups + 1, "cat_is_unsolicited_event_buffered.0": 10,
+         "cat_search_command_by_name.0": m + 1}
+    if extra:
+        u.update(extra)
+    return u
+
+
 def with_prop(prop, jobs):
     for j in jobs:
         j.defines["PROP_" + prop] = None
@@ -55,7 +71,193 @@ def c04(tier):
     return with_prop("C04", jobs)
 
 
-REGISTRY = {"C04": c04}
+# ------------------------------------------------------------------------------------------------
+# C01
+
+P("C01", explanation="E3 guided run r_line.c", bounds={"quick": "", "thorough": ""}, outside="")
+
+
+def shape_n(shape, m=3, cap=12, lines=1):
+    """step bound for a shaped input (DESIGN.md C15): one call per byte, M extra calls per name character,
+    search + dispatch + argument handling, and two flushed units per line, plus slack"""
+    n = len(shape) + shape.count("n") * m + shape.count("*") * m
+    per_line = m + 8 + (cap + 8) + 15
+    return n + per_line * lines + 8
+
+
+def shape_job(prop, shape, harness="r_line.c", lines=1, cap=(12, 24), extra=None, name=None, m=3, **kw):
+    capmax = cap[1]
+    if extra and extra.get("SEPARATE_UBUF"):
+        capmax = 2 * cap[1]
+    n = shape_n(shape, m=m, cap=capmax // 2, lines=lines)
+    d = {"SHAPESTR": '"%s"' % shape, "N": n, "CAPB_MIN": cap[0], "CAPB_MAX": cap[1], "M": m}
+    if extra:
+        d.update(extra)
+    tag = name or shape.replace("?", "q").replace("=", "e").replace("*", "s")
+    kw.setdefault("timeout", 900)
+    kw.setdefault("samples", 100000)
+    return Job("%s.%s" % (harness[:-2], tag), harness, d, unwind=max(n, capmax, 26) + 2, unwindset=uws(capmax // 2 + 1, m=m), hinted=True,
+               object_bits=12, **kw)
+
+
+C01_SHAPES_QUICK = [
+    # blank / prefix only
+    ("L", 1), ("RL", 1), ("AL", 1), ("ATL", 1), ("ATRL", 1),
+    # run
+    ("ATnL", 1), ("ATnnL", 1), ("ATnnnL", 1),
+    # read
+    ("ATn?L", 1), ("ATnn?L", 1), ("ATn?RL", 1),
+    # write
+    ("ATn=L", 1), ("ATnn=L", 1), ("ATn=aL", 1), ("ATnn=aaL", 1), ("ATn=aaaL", 1),
+    # test
+    ("ATn=?L", 1), ("ATnn=?L", 1),
+    # garbage at every stage, drained up to the LF
+    ("gxL", 1), ("AgxL", 1), ("ATgxL", 1), ("ATngxL", 1), ("ATn?xL", 1), ("ATn=?xL", 1),
+    # two lines
+    ("ATLATL", 2), ("gLATnL", 2),
+    # free bytes
+    ("***", 2),
+]
+
+
+def c01(tier):
+    jobs = []
+    for shape, lines in C01_SHAPES_QUICK:
+        rw = ["end-of-scenario"] + (["a-result-code"] if shape.strip("RL*") else [])
+        jobs.append(shape_job("C01", shape, lines=lines, required_witness=rw))
+    # over-long argument lists against the smallest legal buffer (command half = 6 bytes)
+    for shape in ("ATn=aaaaaL", "ATn=aaaaaaL", "ATn=aaaaaaaL"):
+        jobs.append(shape_job("C01", shape, cap=(12, 12), name="cap6." + shape.replace("=", "e"), required_witness=["end-of-scenario", "a-result-code"]))
+    return with_prop("C01", jobs)
+
+
+# ------------------------------------------------------------------------------------------------
+# C02 / C09
+
+P("C02", explanation="E3 guided run r_resolve.c", bounds={"quick": "", "thorough": ""}, outside="")
+P("C09", explanation="E3 guided run r_resolve.c", bounds={"quick": "", "thorough": ""}, outside="")
+
+RESOLVE_SHAPES_QUICK = ["ATnL", "ATnnL", "ATnnnL", "ATn?L", "ATnn?L", "ATn=L", "ATnn=aL", "ATn=aaL", "ATn=?L", "ATnn=?L", "ATn=?aL"]
+
+
+def resolve_jobs(prop, tier):
+    jobs = []
+    for shape in RESOLVE_SHAPES_QUICK:
+        jobs.append(shape_job(prop, shape, harness="r_resolve.c", extra={"G": 2, "G1_START": 2}, samples=200000))
+    return with_prop(prop, jobs)
+
+
+def c02(tier):
+    return resolve_jobs("C02", tier)
+
+
+def c09(tier):
+    return resolve_jobs("C09", tier)
+
+
+# ------------------------------------------------------------------------------------------------
+# C06
+
+P("C06", explanation="E3 guided run r_args.c", bounds={"quick": "", "thorough": ""}, outside="")
+
+
+def c06(tier):
+    jobs = []
+    lens = (0, 2, 5, 6, 7, 9) if tier == "quick" else (0, 1, 2, 3, 4, 5, 6, 7, 8, 9, 10)
+    for n in lens:
+        # shared buffer: command half = capb/2 in 6..8
+        jobs.append(shape_job("C06", "AT+k=" + "x" * n + "L", harness="r_args.c", cap=(12, 17), name="shared.w%d" % n, samples=200000))
+    for n in ((6, 9) if tier == "quick" else (0, 3, 5, 6, 7, 8, 9)):
+        # separate event buffer: the whole buffer (6..8 bytes) is the command buffer
+        jobs.append(shape_job("C06", "AT+k=" + "x" * n + "L", harness="r_args.c", cap=(6, 8), extra={"SEPARATE_UBUF": 1}, name="separate.w%d" % n, samples=200000))
+    jobs.append(shape_job("C06", "AT+k?L", harness="r_args.c", cap=(12, 24), name="shared.read"))
+    jobs.append(shape_job("C06", "AT+k?L", harness="r_args.c", cap=(6, 12), extra={"SEPARATE_UBUF": 1}, name="separate.read"))
+    return with_prop("C06", jobs)
+
+
+# ------------------------------------------------------------------------------------------------
+# C10
+
+P("C10", explanation="E3 guided run r_codes.c", bounds={"quick": "", "thorough": ""}, outside="")
+
+
+def codes_job(kind, nrc, sep, name):
+    kinds = ["run", "read", "write", "test"]
+    tmax = 6 if kind == 1 else 17 if kind == 3 else 0
+    n = 7 + 2 * 2 + 2 + 8 + nrc * (tmax + 14) + 24
+    d = {"KIND": kind, "NRC": nrc, "N": n, "SEPARATE_UBUF": 1 if sep else 0}
+    if sep:
+        d.update({"CAPB_MIN": 18, "CAPB_MAX": 20})
+        cap = 20
+    else:
+        d.update({"CAPB_MIN": 12, "CAPB_MAX": 16})
+        cap = 8
+    return Job("r_codes.%s.k%d.%s" % (kinds[kind], nrc, name), "r_codes.c", d, unwind=max(n, 30) + 2, unwindset=uws(cap + 1, m=2), hinted=True,
+               object_bits=12, samples=200000, timeout=1200)
+
+
+def c10(tier):
+    jobs = []
+    k = 3 if tier == "quick" else 5
+    for kind in (0, 1, 2, 3):
+        jobs.append(codes_job(kind, k if kind in (1, 3) else (k + 1), False, "shared"))
+    jobs.append(codes_job(3, k, True, "separate20"))
+    jobs.append(codes_job(1, k, True, "separate20"))
+    return with_prop("C10", jobs)
+
+
+# ------------------------------------------------------------------------------------------------
+# C05
+
+P("C05", explanation="E1 kernel k_buf.c", bounds={"quick": "", "thorough": ""}, outside="")
+
+
+def c05(tier):
+    ln = 10 if tier == "quick" else 20
+    jobs = [Job("k_buf.hex.len%d" % ln, "k_buf.c", {"VT": 3, "LEN": ln}, unwind=ln + 6, timeout=1800, samples=100000),
+            Job("k_buf.str.len%d" % ln, "k_buf.c", {"VT": 4, "LEN": ln}, unwind=ln + 6, timeout=1800, samples=100000)]
+    return with_prop("C05", jobs)
+
+
+# ------------------------------------------------------------------------------------------------
+# C07
+
+P("C07", explanation="E1 round trip k_rt.c", bounds={"quick": "", "thorough": ""}, outside="")
+
+
+def rt_job(types, sizes, cap, solver="minisat", timeout=1200):
+    d = {"NV": len(types), "CAP": cap}
+    for i, (t, z) in enumerate(zip(types, sizes)):
+        d["T%d" % i] = t
+        d["DS%d" % i] = z
+    name = "k_rt." + "_".join("t%dz%d" % (t, z) for t, z in zip(types, sizes))
+    return Job(name, "k_rt.c", d, unwind=cap + 2, solver=solver, timeout=timeout, samples=50000,
+               required_witness=["end-of-scenario", "restore-changed-a-byte"])
+
+
+def c07(tier):
+    jobs = []
+    for t in (0, 1, 2):
+        for z in (1, 2):
+            jobs.append(rt_job([t], [z], 16))
+    jobs.append(rt_job([2], [4], 16))
+    jobs.append(rt_job([3], [0], 22))
+    jobs.append(rt_job([4], [0], 22, solver="kissat"))
+    for t in (0, 1, 2):
+        jobs.append(rt_job([t, t], [1, 1], 16))
+    if tier == "thorough":
+        jobs.append(rt_job([0], [4], 16, solver="kissat", timeout=3000))
+        jobs.append(rt_job([1], [4], 16, solver="kissat", timeout=3000))
+        for a in range(5):
+            for b in range(5):
+                if a != b or a >= 3:
+                    za = 0 if a >= 3 else 1
+                    zb = 0 if b >= 3 else 1
+                    jobs.append(rt_job([a, b], [za, zb], 40, solver="kissat", timeout=3000))
+    return with_prop("C07", jobs)
+
+
+REGISTRY = {"C04": c04, "C01": c01, "C02": c02, "C09": c09, "C06": c06, "C10": c10, "C05": c05, "C07": c07}
 
 
 def jobs_for(prop, tier):
